@@ -34,6 +34,7 @@
 #include <deque>
 #include <filesystem>
 #include <map>
+#include <set>
 #include <sstream>
 
 #include "common/session.h"
@@ -106,6 +107,7 @@ struct ScriptPeer {
   bool fresh = false;           // joined in this step: no previous snapshot of this connection
   bool qc_unqueued = false;     // choked by our own queue (queued, uninterested), then taken out of the queue by the peer's CHOKE
   bool qc_state = false;        // currently choked by our own queue
+  bool li_cancelled = false;    // interest was dropped while only cancelled (invalid) entries sat in the queued bucket
   bool nq_update = false;       // update_interested re-marked interest while the peer had us unchoked, without queueing
 };
 
@@ -122,6 +124,7 @@ struct Case {
   uint32_t conn_counter = 0;
   int64_t quiet_secs = 0;
   std::string stuck;
+  std::set<uint32_t> prev_active;   // pieces listed in the transfer list at the end of the previous step
   explicit Case(Session& s) : S(s) {}
 };
 
@@ -324,7 +327,22 @@ void after_op(Case& c, const std::vector<std::string>& inj_list, bool timed) {
     if (b.dun || b.dint) { c.peer[p].qc_state = false; c.peer[p].qc_unqueued = false; }
     if (choke_inj && c.peer[p].qc_state && !b.dint && !b.dq) { c.peer[p].qc_unqueued = true; c.peer[p].qc_state = false; }
     if (!li && !b.dint && b.dq && !b.dun && ((a.dun && !choke_inj) || was)) c.peer[p].qc_state = true;
-    if (li) sent.push_back("LI:" + ps);
+    if (b.dint) c.peer[p].li_cancelled = false;
+    if (li) {
+      bool only_cancelled = !a.b[0].empty();
+      for (auto& e : a.b[0]) if (e.valid) only_cancelled = false;
+      c.peer[p].li_cancelled = only_cancelled;
+      // Position of the drop among this step's REQUESTs is not observable. It is put AFTER them (the delegate relation then
+      // sees every block taken in this step) unless one of them lists a piece this peer announced and that was not listed
+      // before (is_interested_in_active would then wrongly look true): then BEFORE them.
+      bool newly_listed = false;
+      for (auto& x : sent) {
+        unsigned q, i;
+        if (sscanf(x.c_str(), "R:%u:%u:", &q, &i) == 2 && (int)q != p && i < c.peer[p].bits.size() && c.peer[p].bits[i] == '1' &&
+            !c.prev_active.count(i)) newly_listed = true;
+      }
+      if (newly_listed) before_sent.push_back("LI:" + ps); else sent.push_back("LI:" + ps);
+    }
     else if (a.dun && !b.dun && !choke_inj) sent.push_back("QC:" + ps);
     else if (was && !b.dint && b.dq && !(a.dun && !b.dun)) sent.push_back("QC:" + ps);
   }
@@ -362,6 +380,8 @@ void after_op(Case& c, const std::vector<std::string>& inj_list, bool timed) {
     torrent::PeerConnectionBase* pcb = find_conn(c.S, c.T, p, c.peer[p].port);
     if (pcb == nullptr || pcb->m_down_choke.queued()) c.peer[p].nq_update = false;
   }
+  c.prev_active.clear();
+  for (torrent::BlockList* bl : *c.T->main()->delegator()->transfer_list()) c.prev_active.insert(bl->index());
   std::string y = y_string(c);
   if (y != c.lastY) { flush_quiet(c); c.ev.push_back("Y:" + y); c.lastY = y; }
 }
@@ -619,7 +639,7 @@ bool do_op(Case& c, const std::string& o, std::string& err) {
           }
         d << "int" << (int)pcb->m_down_interested << ".unch" << (int)pcb->m_down_unchoked << ".dq" << (int)pcb->m_down_choke.queued()
           << ".nq" << (int)sp.nq_update << ".miss" << nmiss << ".listed" << nlisted << ".untouched" << nuntouched
-          << ".unheld" << valid_unheld << ".invalid" << invalid << ".qcu" << (int)sp.qc_unqueued;
+          << ".unheld" << valid_unheld << ".invalid" << invalid << ".qcu" << (int)sp.qc_unqueued << ".licp" << (int)sp.li_cancelled;
       }
       c.stuck = d.str();
     }
